@@ -48,8 +48,8 @@ CHECKS["C11"] = {
 CHECKS["C18"] = {
     "text": "spec/Context.tla: the registry / grid-cache state machine (constructors, resources, operators, issued handles, shared cache, captured grid objects) with the documented resolution order; TLC checks 'operators never change' as an action property, handle uniqueness and object separation over every reachable state; one history per reachable state is replayed into real Minimal and Plain contexts with every live operator re-observed after every step. spec/PlainLookup.tla enumerates all file configurations (run-time registration, resource files and registers in two search paths, register layouts: several items, item at EOF, CRLF, missing terminator, names that are prefixes of one another) and the real Plain must pick the documented source. spec/Trace_C18.tla validates traces recorded from real threads (shared context for apply, concurrent instantiation and clear_grids; cache events emitted under the cache mutex).",
     "design_ref": "DESIGN.md §5.18",
-    "note": "Bounded: 2 contexts, histories of <= 4 (quick) / 5 (thorough) actions; 19 208 lookup configurations; 6 / 60 concurrent segments of ~240 events. User operators are registered under names without a colon. Object identity is compared only among grid objects the model says are alive. The trace binding is self-tested on every run (a corrupted trace must be rejected).",
-    "technique": "TLA+ spec + TLC (safety, action property); behaviours replayed into the real contexts; trace validation of concurrent runs by TLC",
+    "note": "Bounded: 2 contexts, histories of <= 4 (quick) / 5 (thorough) actions; 19 208 lookup configurations; 6 / 60 concurrent segments of ~240 events. User operators are registered under names without a colon. Object identity is compared only among grid objects the model says are alive. The trace binding is self-tested on every run (a corrupted trace must be rejected). The grid cache events the repository's own test suite produces when run with the hooks on are validated by the same trace specification.",
+    "technique": "TLA+ spec + TLC (safety, action property); behaviours replayed into the real contexts; trace validation of concurrent runs and of the repository's own test suite by TLC",
 }
 
 CHECKS["C02"] = {
@@ -136,7 +136,7 @@ CHECKS["C10"] = {
     "text": "spec/Catalogue.tla: one row per built-in operator parameterisation (78 rows over all 36 built-in names) with the coordinate elements it reads and writes, the dependency of outputs on inputs, invertibility, declared domain limits and representative points inside / far outside / at the edge / outside grid coverage with a null grid; an abstract semantics (per element same | new | nan | any, per tuple counted yes | no | either) predicting the admissible outcomes for operator x direction x domain class x NaN mask (all 16), for whole sets, and - by composing the per-step transformers with stack depth and min-count - for pipelines with inv and omit_*. TLC checks the sanity of the abstract semantics (count <= n, uncounted => NaN somewhere, untouched elements kept, forced NaN propagates, inside => counted, outside => not counted, no deviation coincides with the reference). Every case, set and pipeline is replayed on the real operators (results abstracted by bit comparison and is_nan; per-step counts from the step hook).",
     "design_ref": "DESIGN.md §5.10",
     "note": "quick: 3 216 cases, 156 sets, 14 170 two-step pipelines; thorough: all-rows two-step and three-step pipelines (127 885). Domain classes are decided at representative points only, not across the whole domain. Stack steps (underflow, swap on < 2 elements, the undocumented drop, deprecated push/pop) are covered by replaying the stack machine's three-step programs with the honesty clauses only. Not compared: which elements carry the NaN of a failed tuple; lcc/somerc non-convergence (no representative point); operators that declare no limit have no 'outside' class.",
-    "technique": "TLA+ abstract-interpretation spec enumerated by TLC; every case, set and pipeline replayed on the real operators; per-step counts from the step hook",
+    "technique": "TLA+ abstract-interpretation spec enumerated by TLC; every case, set and pipeline replayed on the real operators; per-step counts from the step hook; trace validation of the repository's own test suite against the application protocol (spec/Runtime.tla)",
 }
 
 _claimed = set(CHECKS)
